@@ -452,6 +452,14 @@ package server
 //@   atcall Write requires onlyTheReply: sameSlice(arg0.([]byte), reply)
 //@   flag noframe
 
+// the WebSocket responder: after the HTTP upgrade (net/http + gorilla, assumed) the reply is one Write of
+// nonce | sealed session key: this connection's key under the secret shared with this client
+//@ func (WebSocket).makeResponder$1
+//@   requires originalConn != nil
+//@   atcall AESGCMEncrypt requires sealsSessionKey: len(arg0.([]byte)) == 12 && sameSlice(arg0.([]byte), nonce) && len(arg1.([]byte)) == 32 && (forall k int :: 0 <= k && k < 32 ==> arg1.([]byte)[k] == sharedSecret[k]) && len(arg2.([]byte)) == 32 && (forall k int :: 0 <= k && k < 32 ==> arg2.([]byte)[k] == sessionKey[k])
+//@   atcall Write requires nonceThenSealedKey: len(arg0.([]byte)) == 12 + len(encryptedKey) && (forall k int :: 0 <= k && k < 12 ==> arg0.([]byte)[k] == nonce[k]) && (forall k int :: 0 <= k && k < len(encryptedKey) ==> arg0.([]byte)[12 + k] == encryptedKey[k])
+//@   flag noframe
+
 // ---------------------------------------------------------------------------------------------
 // C06: agreement of the two ends of the handshake. sealedBy(...) is, term for term, the postcondition
 // that package client proves for makeAuthenticationPayload (client:makeAuthenticationPayload#post.*,
